@@ -463,7 +463,9 @@ Section Loaders.
   Proof.
     intros Hg Hmax Hne Hok Hh.
     pose proof (root_load_refines_reader fast None (enc_payload roots bs)) as R.
-    rewrite (root_read_all_v1 hok hdrdec roots bs) in R by assumption.
+    assert (E : root_read_all hok hdrdec (enc_payload roots bs) = Ok (roots, mkscan bs EEof))
+      by exact (root_read_all_v1 hok hdrdec (Some roots) bs Hg Hmax Hne Hok Hh).
+    rewrite E in R.
     destruct R as (_ & _ & R3 & _). destruct (R3 eq_refl) as (A & B). cbn [s_end s_blocks] in *.
     destruct (root_load hok hdrdec fast None (enc_payload roots bs)) as [calls r]. cbn [l_calls l_res] in *.
     exists calls. split; [rewrite A; reflexivity|]. apply B. left. reflexivity.
@@ -525,7 +527,7 @@ Proof.
   intros Hg Hne Hh. split.
   - intros o Hmax H63 Hok. apply carv1_read_all_v1; try assumption.
     repeat split; try assumption. intros _. assumption.
-  - intros Hmax Hok. apply root_read_all_v1; assumption.
+  - intros Hmax Hok. exact (root_read_all_v1 hok hdrdec (Some roots) bs Hg Hmax Hne Hok Hh).
 Qed.
 
 Theorem loaders_refine_readers hok hdrdec fast fail file :
